@@ -114,3 +114,37 @@ def programs(tier):
     if tier == 'quick':
         return BASE[:20]
     return BASE + [generated(k) for k in range(60 - len(BASE))]
+
+
+# ---- tagged programs: the expectation does NOT come from the debug section.
+# The first character of the text starts an executable statement (source
+# offset 0); every `PRINT #` prints the tag L<its own line number>, one
+# statement per line.  The sequence of lines at which `step` stops, restricted
+# to tagged lines, must therefore equal the sequence of printed tags; `break L`
+# on a tagged line (and on line 1) must not be relocated.
+TAGGED_SRC = [
+    ('tag-print-first', 'PRINT #\nx% = 1\nPRINT #\nPRINT #\n'),
+    ('tag-assign-first', 'x% = 2\nPRINT #\nIF x% = 2 THEN\nPRINT #\nEND IF\nPRINT #\n'),
+    ('tag-for-first', 'FOR i% = 1 TO 2\nPRINT #\nNEXT i%\nPRINT #\n'),
+    ('tag-if-first', 'IF q% = 0 THEN\nPRINT #\nELSE\nPRINT #\nEND IF\nPRINT #\n'),
+    ('tag-do-first', 'DO WHILE k% < 2\nk% = k% + 1\nPRINT #\nLOOP\nPRINT #\n'),
+    # a bare DO emits no instruction: line 1 is not executable (first_exec is switched off below)
+    ('tag-bare-do-first', 'DO\nk% = k% + 1\nPRINT #\nLOOP UNTIL k% >= 2\nPRINT #\n'),
+    ('tag-call-first', 'CALL s(2)\nPRINT #\nSUB s(n%)\nPRINT #\nIF n% > 1 THEN CALL s(n% - 1)\nPRINT #\n'
+                       'END SUB\n'),
+    ('tag-while-first', 'WHILE w% < 2\nw% = w% + 1\nPRINT #\nWEND\nPRINT #\n'),
+    ('tag-gosub-first', 'GOSUB g\nPRINT #\nEND\ng:\nPRINT #\nRETURN\n'),
+    ('tag-select-first', 'SELECT CASE 2\nCASE 1\nPRINT #\nCASE 2\nPRINT #\nEND SELECT\nPRINT #\n'),
+    ('tag-comment-first', "' not a statement\nPRINT #\nPRINT #\n"),
+]
+
+
+def tagged_programs():
+    out = []
+    for name, tpl in TAGGED_SRC:
+        lines = tpl.split('\n')
+        tagged = [i + 1 for i, l in enumerate(lines) if l == 'PRINT #']
+        src = '\n'.join(f'PRINT "L{i + 1}"' if l == 'PRINT #' else l for i, l in enumerate(lines))
+        out.append((name, src, None, {'tagged': tagged,
+                                      'first_exec': not lines[0].startswith("'") and lines[0] != 'DO'}))
+    return out
